@@ -118,3 +118,12 @@ func VerifC07_H2Segmentation() {
 	}
 	verif.Cover("end")
 }
+
+// VerifC18_H2Segmentation: the same exploration counted for C18 - a valid
+// frame sequence with a header block spread over HEADERS and CONTINUATION
+// frames parses to the same frames as in one piece wherever the reads are cut
+// (the framer's order-tracking state is part of what a retry must restore).
+func VerifC18_H2Segmentation() {
+	VerifC07_H2Segmentation()
+	verif.Cover("c18")
+}
